@@ -91,6 +91,33 @@ impl Shape {
         renum(&mut s, &mut n);
         s
     }
+    /// A spine of `depth` levels whose deep side is chosen per level by `dir`, with `crown`
+    /// grafted at its end (the crown's leaves then sit at depth `depth` + their own depth).
+    fn graft(depth: usize, dir: &dyn Fn(usize) -> bool, crown: Shape) -> Shape {
+        let mut s = crown;
+        for i in 0..depth {
+            s = if dir(i) {
+                Shape::Node(Box::new(s), Box::new(Shape::Leaf(0)))
+            } else {
+                Shape::Node(Box::new(Shape::Leaf(0)), Box::new(s))
+            };
+        }
+        let mut n = 0;
+        fn renum(s: &mut Shape, n: &mut usize) {
+            match s {
+                Shape::Leaf(i) => {
+                    *i = *n;
+                    *n += 1
+                }
+                Shape::Node(a, b) => {
+                    renum(a, n);
+                    renum(b, n)
+                }
+            }
+        }
+        renum(&mut s, &mut n);
+        s
+    }
     fn balanced(n: usize, start: usize) -> Shape {
         if n == 1 {
             return Shape::Leaf(start);
@@ -390,7 +417,35 @@ pub fn run(cfg: &RunCfg, rep: &mut Report) {
     for n in [2usize, 3, 5, 8, 16, 33, 64, 128, 256] {
         work.push((Shape::balanced(n, 0), "balanced".into()));
     }
+    // deep spines carrying a crown, so that several nodes / sibling pairs sit at and around the
+    // depth limit (crown leaves at depth 124..=130; beyond 128 must be refused)
     let mut rng = cfg.case_rng(0);
+    let mut crowns: Vec<Shape> = vec![];
+    for n in 2..=4 {
+        crowns.extend(Shape::all(n, 0));
+    }
+    crowns.push(Shape::balanced(8, 0));
+    for crown in &crowns {
+        let h = crown.height();
+        for deepest in [126usize, 127, 128, 129] {
+            if deepest < h {
+                continue;
+            }
+            let d = deepest - h;
+            work.push((Shape::graft(d, &|_| true, crown.clone()), "left-spine+crown".into()));
+            work.push((Shape::graft(d, &|_| false, crown.clone()), "right-spine+crown".into()));
+            work.push((Shape::graft(d, &|i| i % 2 == 0, crown.clone()), "zigzag-spine+crown".into()));
+        }
+    }
+    let n_spines = cfg.n_cases(40, 2_000) as usize;
+    for _ in 0..n_spines {
+        let nl = 2 + rng.below(6);
+        let crown = Shape::random(&mut rng, nl, 0);
+        let deepest = *rng.pick(&[20usize, 64, 100, 120, 125, 126, 127, 128, 128, 129]);
+        let d = deepest.saturating_sub(crown.height());
+        let bits: Vec<bool> = (0..d).map(|_| rng.coin()).collect();
+        work.push((Shape::graft(d, &|i| bits[i], crown), "random-spine+crown".into()));
+    }
     let n_random = cfg.n_cases(600, 20_000) as usize;
     for _ in 0..n_random {
         let cap = if rng.chance(1, 10) { 60 } else { 12 };
